@@ -21,8 +21,8 @@ Section Gen.
     a_bnd M (fst (a_bnd M t)) = (fst (a_bnd M t), snd (a_bnd M t)).
   Proof.
     intros t H. destruct (Hinv t H) as (_ & B & _). cbv zeta in B. destruct B as (B1 & B2 & B3 & B4).
-    repeat split; try assumption. intros E. destruct (snd (a_bnd M t)) as [lo hi]. cbn [fst snd] in *.
-    f_equal; lia.
+    split; [exact B1|]. split; [exact B2|]. split; [|exact B4].
+    intros E. destruct (snd (a_bnd M t)) as [lo hi]. cbn [fst snd] in *. f_equal; lia.
   Qed.
 
   Lemma inv_sound : forall t, Inv t -> fst (snd (a_bnd M t)) <= v <= snd (snd (a_bnd M t)).
@@ -34,7 +34,7 @@ Section Gen.
                                 a_bnd M (fst (a_tig M t)) = (fst (a_tig M t), (v, v))).
   Proof.
     intros t H. destruct (Hinv t H) as (_ & _ & T & _). cbv zeta in T. destruct T as (T1 & T2 & T3).
-    repeat split; try assumption; intros E; apply (T3 E).
+    split; [exact T1|]. split; [exact T2|]. intros E. split; apply (T3 E).
   Qed.
 
   Lemma inv_tig_strict : forall t, Inv t -> snd (a_tig M t) = false -> snd (a_bnd M t) = (v, v).
@@ -134,4 +134,238 @@ Qed.
 Theorem contract_kept : forall M s v, AContract M s v -> forall h, AContract M (g_run M h s) v.
 Proof.
   intros M s v (Inv & H0 & Hinv) h. exists Inv. split; [apply (g_run_inv M Inv v Hinv h s H0)|exact Hinv].
+Qed.
+
+(* ================================================================ Part 2: the universal machine of ApiModel.v *)
+Lemma hnz_generic : forall q d fuel s, hnz q d fuel s = g_hnz (AM q d) fuel s.
+Proof.
+  intros q d. induction fuel as [|fuel IH]; intros s; cbn [hnz g_hnz AM a_bnd a_tig]; cbv zeta; unfold zdefb.
+  - reflexivity.
+  - rewrite IH. reflexivity.
+Qed.
+
+Lemma idiom_generic : forall q d fuel s, idiom q d fuel s = g_idiom (AM q d) fuel s.
+Proof.
+  intros q d. induction fuel as [|fuel IH]; intros s; cbn [idiom g_idiom AM a_cmp a_tig]; cbv zeta.
+  - reflexivity.
+  - rewrite IH. reflexivity.
+Qed.
+
+Lemma tighten_def_generic : forall q d fuel s, tighten_def q d fuel s = g_tighten_def (AM q d) fuel s.
+Proof.
+  intros q d. induction fuel as [|fuel IH]; intros s; cbn [tighten_def g_tighten_def AM a_bnd a_tig]; cbv zeta; unfold zdefb.
+  - reflexivity.
+  - rewrite IH. reflexivity.
+Qed.
+
+Lemma finish_cost_generic : forall q d s, finish_cost q d s = g_final_cost (AM q d) s.
+Proof.
+  intros q d s. unfold finish_cost, final_cost_of, g_final_cost. cbv zeta.
+  rewrite idiom_generic, tighten_def_generic. reflexivity.
+Qed.
+
+Lemma apply_op_fst : forall q d o s, fst (apply_op q d o s) = g_step (AM q d) s o.
+Proof.
+  intros q d o s. unfold apply_op. cbv zeta.
+  match goal with |- fst (if errA (fst ?r) then _ else _) = _ => destruct (errA (fst r)); cbn [fst] end;
+    destruct o; cbn [g_step AM a_bnd a_tig a_cmp a_eds a_mu fst]; try reflexivity; rewrite hnz_generic; reflexivity.
+Qed.
+
+Lemma apply_op_err : forall q d o s, is_err (snd (apply_op q d o s)) = errA (fst (apply_op q d o s)).
+Proof.
+  intros q d o s. unfold apply_op. cbv zeta.
+  match goal with |- is_err (snd (if errA (fst ?r) then _ else _)) = _ => destruct (errA (fst r)) eqn:E end.
+  - cbn [fst snd is_err]. symmetry. exact E.
+  - rewrite E. destruct o; cbn [snd is_err]; try reflexivity.
+    destruct (snd (listing q d s)); reflexivity.
+Qed.
+
+Definition root (o : bop) : call := ([], o).
+
+(* Every history of calls on the root edit: the model's run is the generic run, no outcome is an error, every call is
+   answered, and completion yields the contract's value. *)
+Theorem model_root_history : forall q d s v, AContract (AM q d) s v -> forall h : list bop,
+  fst (run_hist q d (map root h) s) = g_run (AM q d) h s /\
+  existsb is_err (snd (run_hist q d (map root h) s)) = false /\
+  length (snd (run_hist q d (map root h) s)) = length h /\
+  finish_cost q d (fst (run_hist q d (map root h) s)) = Some v.
+Proof.
+  intros q d s v HC h. revert s HC. induction h as [|o h IH]; intros s HC.
+  - cbn [map run_hist fst snd g_run fold_left existsb length]. repeat split.
+    rewrite finish_cost_generic. apply (proj2 (contract_history _ _ _ HC [])).
+  - cbn [map run_hist]. cbv zeta. unfold step, root. cbn [fst snd nav].
+    pose proof (apply_op_fst q d o s) as Ef. pose proof (apply_op_err q d o s) as Ee.
+    pose proof (contract_kept _ _ _ HC [o]) as HC1. cbn [g_run fold_left] in HC1.
+    pose proof (proj1 (contract_history _ _ _ HC [o])) as Er. cbn [g_run fold_left AM a_err] in Er.
+    rewrite Ef in Ee. rewrite Er in Ee. rewrite Ee. rewrite Ef.
+    destruct (IH _ HC1) as (I1 & I2 & I3 & I4).
+    cbn [fst snd g_run fold_left existsb length]. rewrite Ee. cbn [orb].
+    repeat split; try assumption. f_equal. exact I3.
+Qed.
+
+(* ---------------------------------------------------------------- consequences of a contract, one operation at a time *)
+Lemma ac_err : forall M x v, AContract M x v -> a_err M x = false.
+Proof. intros M x v (Inv & H0 & Hinv). apply (inv_err M Inv v Hinv x H0). Qed.
+
+Lemma ac_bnd : forall M x v, AContract M x v ->
+  AContract M (fst (a_bnd M x)) v /\ (a_mu M (fst (a_bnd M x)) <= a_mu M x)%nat /\
+  fst (snd (a_bnd M x)) <= v <= snd (snd (a_bnd M x)) /\
+  a_bnd M (fst (a_bnd M x)) = (fst (a_bnd M x), snd (a_bnd M x)).
+Proof.
+  intros M x v (Inv & H0 & Hinv). destruct (inv_bnd M Inv v Hinv x H0) as (I & Mu & _ & Id).
+  split; [exists Inv; split; assumption|]. split; [exact Mu|]. split; [apply (inv_sound M Inv v Hinv x H0)|exact Id].
+Qed.
+
+Lemma ac_tig : forall M x v, AContract M x v ->
+  AContract M (fst (a_tig M x)) v /\ (snd (a_tig M x) = true -> (a_mu M (fst (a_tig M x)) < a_mu M x)%nat) /\
+  (snd (a_tig M x) = false -> (a_mu M (fst (a_tig M x)) <= a_mu M x)%nat /\
+                              a_bnd M (fst (a_tig M x)) = (fst (a_tig M x), (v, v)) /\ snd (a_bnd M x) = (v, v)).
+Proof.
+  intros M x v (Inv & H0 & Hinv). destruct (inv_tig M Inv v Hinv x H0) as (I & T1 & T2).
+  split; [exists Inv; split; assumption|]. split; [exact T1|]. intros E. destruct (T2 E) as [A B].
+  split; [exact A|]. split; [exact B|]. apply (inv_tig_strict M Inv v Hinv x H0 E).
+Qed.
+
+Lemma ac_cmp : forall M x v, AContract M x v ->
+  AContract M (fst (a_cmp M x)) v /\ (a_mu M (fst (a_cmp M x)) <= a_mu M x)%nat.
+Proof.
+  intros M x v (Inv & H0 & Hinv). destruct (inv_cmp M Inv v Hinv x H0) as (I & Mu).
+  split; [exists Inv; split; assumption|exact Mu].
+Qed.
+
+(* ---------------------------------------------------------------- unfolding the universal machine *)
+Lemma bnd_const : forall q d c t, k_bnd (opsA q (S d)) (AConst c t) = (AConst c t, (c, c)).
+Proof. reflexivity. Qed.
+Lemma tig_const : forall q d c t, k_tig (opsA q (S d)) (AConst c t) = (AConst c t, false).
+Proof. reflexivity. Qed.
+Lemma cmp_const : forall q d c t, k_cmp (opsA q (S d)) (AConst c t) = (AConst c t, true).
+Proof. reflexivity. Qed.
+Lemma bnd_sum : forall q d l, k_bnd (opsA q (S d)) (ASum l) = (ASum (fst (sum_bnd (opsA q d) l)), snd (sum_bnd (opsA q d) l)).
+Proof. reflexivity. Qed.
+Lemma tig_sum : forall q d l,
+  k_tig (opsA q (S d)) (ASum l) = (ASum (fst (first_true (k_tig (opsA q d)) l)), snd (first_true (k_tig (opsA q d)) l)).
+Proof. reflexivity. Qed.
+Lemma cmp_sum : forall q d l,
+  k_cmp (opsA q (S d)) (ASum l) = (fst (k_bnd (opsA q (S d)) (ASum l)), zdefb (snd (k_bnd (opsA q (S d)) (ASum l)))).
+Proof. reflexivity. Qed.
+
+Definition Good (q : bool) (s : ast) (v : Z) : Prop := forall d, (aheight s <= d)%nat -> AContract (AM q d) s v.
+
+(* ---------------------------------------------------------------- ConstantCostEdit *)
+Theorem good_const : forall q c t, Good q (AConst c t) c.
+Proof.
+  intros q c t d Hd. cbn [aheight] in Hd. destruct d as [|d]; [lia|].
+  exists (fun s => s = AConst c t). split; [reflexivity|]. intros s ->.
+  unfold astep_ok. cbn [AM a_bnd a_tig a_cmp a_eds a_err a_mu]. rewrite bnd_const, tig_const, cmp_const.
+  cbn [fst snd errA muA listing]. repeat split; intros; try reflexivity; try lia; try discriminate.
+Qed.
+
+(* ---------------------------------------------------------------- lists of sub-edits under a contract *)
+Section Lists.
+  Variable q : bool.
+  Variable d : nat.
+  Notation CM := (AM q d).
+  Notation C := (opsA q d).
+
+  Definition pts (vs : list Z) : list zr := map (fun v => (v, v)) vs.
+  Lemma zr_sum_pts : forall vs, zr_sum (pts vs) = (zsum vs, zsum vs).
+  Proof.
+    unfold pts, zr_sum. induction vs as [|v vs IH]; [reflexivity|]. cbn [map fold_right zsum]. rewrite IH. reflexivity.
+  Qed.
+
+  Lemma f2_err : forall l vs, Forall2 (AContract CM) l vs -> existsb errA l = false.
+  Proof.
+    induction 1 as [|x v l vs Hx _ IH]; [reflexivity|]. cbn [existsb]. rewrite IH.
+    pose proof (ac_err _ _ _ Hx) as E. cbn [AM a_err] in E. rewrite E. reflexivity.
+  Qed.
+
+  Lemma thread_bnd_spec : forall l vs, Forall2 (AContract CM) l vs ->
+    Forall2 (AContract CM) (fst (thread (k_bnd C) l)) vs /\
+    (nat_sum (map muA (fst (thread (k_bnd C) l))) <= nat_sum (map muA l))%nat /\
+    fst (zr_sum (snd (thread (k_bnd C) l))) <= zsum vs <= snd (zr_sum (snd (thread (k_bnd C) l))) /\
+    thread (k_bnd C) (fst (thread (k_bnd C) l)) = thread (k_bnd C) l.
+  Proof.
+    induction 1 as [|x v l vs Hx _ IH].
+    - cbn. repeat split; try constructor; lia.
+    - destruct IH as (I1 & I2 & I3 & I4). destruct (ac_bnd _ _ _ Hx) as (B1 & B2 & B3 & B4).
+      cbn [AM a_bnd a_mu] in B2, B3, B4. cbn [thread]. cbv zeta. cbn [fst snd map nat_sum fold_right zr_sum zsum].
+      split; [constructor; assumption|]. split; [lia|]. split.
+      + unfold zr_add. cbn [fst snd]. fold (zr_sum (snd (thread (k_bnd C) l))). fold (zsum vs). lia.
+      + rewrite B4. cbn [fst snd]. rewrite I4. destruct (thread (k_bnd C) l). reflexivity.
+  Qed.
+
+  Lemma thread_fixed : forall l rs, Forall2 (fun x r => k_bnd C x = (x, r)) l rs -> thread (k_bnd C) l = (l, rs).
+  Proof.
+    induction 1 as [|x r l rs Hx _ IH]; [reflexivity|]. cbn [thread]. cbv zeta. rewrite Hx, IH. reflexivity.
+  Qed.
+
+  Lemma first_true_spec : forall l vs, Forall2 (AContract CM) l vs ->
+    Forall2 (AContract CM) (fst (first_true (k_tig C) l)) vs /\
+    (snd (first_true (k_tig C) l) = true ->
+     (nat_sum (map muA (fst (first_true (k_tig C) l))) < nat_sum (map muA l))%nat) /\
+    (snd (first_true (k_tig C) l) = false ->
+     (nat_sum (map muA (fst (first_true (k_tig C) l))) <= nat_sum (map muA l))%nat /\
+     thread (k_bnd C) (fst (first_true (k_tig C) l)) = (fst (first_true (k_tig C) l), pts vs) /\
+     snd (thread (k_bnd C) l) = pts vs).
+  Proof.
+    induction 1 as [|x v l vs Hx Hl IH].
+    - cbn. repeat split; try constructor; intros; try discriminate; lia.
+    - destruct IH as (I1 & I2 & I3). destruct (ac_tig _ _ _ Hx) as (T1 & T2 & T3).
+      cbn [AM a_tig a_bnd a_mu] in T2, T3. cbn [first_true]. cbv zeta.
+      destruct (snd (k_tig C x)) eqn:E; cbn [fst snd map nat_sum fold_right].
+      + split; [constructor; assumption|]. split; [intros _; specialize (T2 eq_refl); lia|discriminate].
+      + destruct (T3 eq_refl) as (M1 & B1 & B0).
+        split; [constructor; assumption|]. split.
+        * intros E2. specialize (I2 E2). lia.
+        * intros E2. destruct (I3 E2) as (J1 & J2 & J3). split; [lia|]. split.
+          -- cbn [thread]. cbv zeta. rewrite B1, J2. reflexivity.
+          -- cbn [thread]. cbv zeta. cbn [snd]. rewrite B0, J3. reflexivity.
+  Qed.
+
+  Lemma thread_all_spec : forall l vs, Forall2 (AContract CM) l vs ->
+    Forall2 (AContract CM) (fst (thread_all (k_cmp C) l)) vs /\
+    (nat_sum (map muA (fst (thread_all (k_cmp C) l))) <= nat_sum (map muA l))%nat.
+  Proof.
+    induction 1 as [|x v l vs Hx Hl IH].
+    - cbn. split; [constructor|lia].
+    - destruct IH as (I1 & I2). destruct (ac_cmp _ _ _ Hx) as (C1 & C2). cbn [AM a_cmp a_mu] in C2.
+      cbn [thread_all]. cbv zeta. destruct (snd (k_cmp C x)); cbn [fst snd map nat_sum fold_right].
+      + split; [constructor; assumption|lia].
+      + split; [constructor; assumption|lia].
+  Qed.
+End Lists.
+
+(* ---------------------------------------------------------------- KeyValuePairEdit (component-wise sum) *)
+Lemma sum_step : forall q d vs l, Forall2 (AContract (AM q d)) l vs ->
+  astep_ok (AM q (S d)) (fun t => exists l', t = ASum l' /\ Forall2 (AContract (AM q d)) l' vs) (zsum vs) (ASum l).
+Proof.
+  intros q d vs l H. unfold astep_ok. cbn [AM a_bnd a_tig a_cmp a_eds a_err a_mu].
+  destruct (thread_bnd_spec q d l vs H) as (B1 & B2 & B3 & B4).
+  assert (Hb : let t' := fst (k_bnd (opsA q (S d)) (ASum l)) in let r := snd (k_bnd (opsA q (S d)) (ASum l)) in
+               (exists l', t' = ASum l' /\ Forall2 (AContract (AM q d)) l' vs) /\ (muA t' <= muA (ASum l))%nat /\
+               fst r <= zsum vs <= snd r /\ k_bnd (opsA q (S d)) t' = (t', r)).
+  { rewrite bnd_sum. unfold sum_bnd. cbv zeta. cbn [fst snd muA].
+    split; [eexists; split; [reflexivity|exact B1]|]. split; [exact B2|]. split; [exact B3|].
+    rewrite bnd_sum. unfold sum_bnd. cbv zeta. rewrite B4. reflexivity. }
+  split; [cbn [errA]; apply (f2_err q d l vs H)|]. split; [exact Hb|]. split; [|split].
+  - rewrite tig_sum. cbn [fst snd muA]. destruct (first_true_spec q d l vs H) as (T1 & T2 & T3).
+    split; [eexists; split; [reflexivity|exact T1]|]. split; [exact T2|].
+    intros E. destruct (T3 E) as (J1 & J2 & J3). split; [exact J1|]. split.
+    + rewrite bnd_sum. unfold sum_bnd. cbv zeta. rewrite J2. cbn [fst snd]. rewrite zr_sum_pts. reflexivity.
+    + rewrite bnd_sum. unfold sum_bnd. cbv zeta. cbn [snd]. rewrite J3, zr_sum_pts. reflexivity.
+  - rewrite cmp_sum. cbn [fst]. cbv zeta in Hb. destruct Hb as (H1 & H2 & _). split; assumption.
+  - cbn [listing fst]. split; [eexists; split; [reflexivity|exact H]|lia].
+Qed.
+
+Theorem good_sum : forall q l vs, Forall2 (Good q) l vs -> Good q (ASum l) (zsum vs).
+Proof.
+  intros q l vs H d Hd. cbn [aheight] in Hd. destruct d as [|d]; [lia|].
+  assert (Hk : Forall2 (AContract (AM q d)) l vs).
+  { assert (Hh : forall x, In x l -> (aheight x <= d)%nat).
+    { intros x Hx. pose proof (nat_max_list_ge (map aheight l) (aheight x) (in_map aheight l x Hx)). lia. }
+    clear Hd. induction H as [|x v l vs Hx _ IH]; constructor.
+    - apply Hx. apply Hh. left. reflexivity.
+    - apply IH. intros y Hy. apply Hh. right. exact Hy. }
+  exists (fun t => exists l', t = ASum l' /\ Forall2 (AContract (AM q d)) l' vs).
+  split; [eexists; split; [reflexivity|exact Hk]|]. intros t (l' & -> & Hl'). apply sum_step. exact Hl'.
 Qed.
